@@ -40,6 +40,7 @@ Sat(con, v) ==
     [] con = "min5maxLen3" -> IsInt(v) /\ IntVal(v) >= 5 /\ Len(v) <= 3      \* two constraints on one parameter
     [] con = "regexA"  -> Len(v) > 0 /\ AllIn(v, {"a"})                       \* regex(^a+$)
     [] con = "even"    -> Len(v) % 2 = 0                                       \* custom constraint registered by the harness
+    [] con = "oddfloat" -> Len(v) % 2 = 1                                      \* custom constraint registered under the built-in name "float"
 
 ---------------------------------------------------------------------------
 EqC(a, b, cs) == IF cs THEN a = b ELSE Lower(a) = Lower(b)
